@@ -29,10 +29,11 @@ VARIABLES cfgC, cfgS, au, conn, cst, sst, c2s, s2c, trC, trS, sessC, sessS, cach
           presented, decision, adv, closed,
           verify,    \* the client of this connection verifies the server (not InsecureSkipVerify)
           now,       \* Config.Time of the server, in hours
-          auto       \* the server's ticket keys are on automatic rotation (no SetSessionTicketKeys)
+          auto,      \* the server's ticket keys are on automatic rotation (no SetSessionTicketKeys)
+          post       \* data phase of one endpoint after a completed handshake (C32), see DataPhase below
 
 vars == <<cfgC, cfgS, au, conn, cst, sst, c2s, s2c, trC, trS, sessC, sessS, cache, keysS, issued,
-          presented, decision, adv, closed, verify, now, auto>>
+          presented, decision, adv, closed, verify, now, auto, post>>
 
 -----------------------------------------------------------------------------
 (* configuration universes *)
@@ -97,6 +98,7 @@ Kx(su) == Tbl(su).kx
 CR == [t |-> "CR"] @@ PB
 SHD == [t |-> "SHD"] @@ PB
 Waiting(st) == st \notin {"start", "done", "failed"}
+NoPost == [msg |-> "none", ts |-> "healthy", out |-> "free", rd |-> "idle", wr |-> "idle", cw |-> "idle", cl |-> "idle", down |-> FALSE]
 
 -----------------------------------------------------------------------------
 Init ==
@@ -105,6 +107,7 @@ Init ==
   /\ conn = 1 /\ cst = "start" /\ sst = "start"
   /\ c2s = <<>> /\ s2c = <<>> /\ trC = <<>> /\ trS = <<>>
   /\ sessC = Null /\ sessS = Null /\ cache = Null
+  /\ post = NoPost
   /\ now = 0 /\ auto \in (IF Mode = "C31" THEN BOOLEAN ELSE {FALSE})
   /\ (auto /\ AdvBudget <= 1 => cfgC.max = 12)   \* small budgets: automatic rotation with the TLS 1.2 client only
   /\ keysS = (IF auto THEN AutoStep(<<>>, 0) ELSE <<TKey("t1", 0)>>)
@@ -440,14 +443,14 @@ NextConnection ==
   /\ verify' \in VerifyChoices
   \* Config.ticketKeys at the start of the connection: automatic rotation by the documented policy
   /\ keysS' = (IF auto THEN AutoStep(keysS, now) ELSE keysS)
-  /\ UNCHANGED <<cfgC, cfgS, au, cache, issued, adv, now, auto>>
+  /\ UNCHANGED <<cfgC, cfgS, au, cache, issued, adv, now, auto, post>>
 
 Between == Terminal /\ conn < ConnLimit /\ Mode = "C31"
 \* Config.Time advances between connections (hours): within a day, past a rotation, past a key's life
 Tick ==
   /\ Between /\ auto /\ now < 300 /\ \E d \in {10, 30, 180} : now' = now + d
   /\ UNCHANGED <<cfgC, cfgS, au, conn, cst, sst, c2s, s2c, trC, trS, sessC, sessS, cache, keysS, issued,
-                 presented, decision, adv, closed, verify, auto>>
+                 presented, decision, adv, closed, verify, auto, post>>
 Rotate ==     \* SetSessionTicketKeys(new, old...)
   /\ Between /\ ~auto /\ Len(keysS) = 1 /\ keysS' = <<TKey("t2", 0)>> \o keysS
   /\ UNCHANGED <<cfgC, cfgS, au, conn, cst, sst, c2s, s2c, trC, trS, sessC, sessS, cache, issued,
@@ -456,6 +459,52 @@ DropOld ==    \* SetSessionTicketKeys(current only)
   /\ Between /\ ~auto /\ Len(keysS) > 1 /\ keysS' = <<Head(keysS)>>
   /\ UNCHANGED <<cfgC, cfgS, au, conn, cst, sst, c2s, s2c, trC, trS, sessC, sessS, cache, issued,
                  presented, decision, adv, closed>>
+
+-----------------------------------------------------------------------------
+(* C32, data phase: after a completed handshake the peer sends one genuine post-handshake message
+   (KeyUpdate with / without update_requested, NewSessionTicket, HelloRequest) while the transport
+   is healthy, has a failing write side, delivers EOF after the message, or is closed; the endpoint's
+   user issues Read, Write, CloseWrite and Close.  The model follows tls/conn.go: Read consumes the
+   message under c.in; answering (KeyUpdate reply, no_renegotiation / unexpected_message alert)
+   takes c.out, writes, and releases c.out on every path (the `defer`); Write, CloseWrite and Close
+   take c.out too.  Demand: once the transport is down every issued call returns. *)
+PostMsgs == {"keyupdate0", "keyupdate1", "nst", "hellorequest"}
+Answers(m) == m \in {"keyupdate1", "nst", "hellorequest"}     \* the endpoint writes something in reaction
+DPUnchanged == UNCHANGED <<cfgC, cfgS, au, conn, cst, sst, c2s, s2c, trC, trS, sessC, sessS, cache, keysS, issued,
+                           presented, decision, adv, closed, verify, now, auto>>
+DP_Inject ==
+  /\ Mode = "C32" /\ cst = "done" /\ sst = "done" /\ post.msg = "none" /\ ~post.down
+  /\ \E m \in PostMsgs, t \in {"healthy", "wfail", "eof", "closed"} :
+        post' = [post EXCEPT !.msg = m, !.ts = t, !.rd = "run", !.down = (t = "closed")]
+  /\ DPUnchanged
+\* Read: consume the message; an answer takes c.out for the write and releases it whether or not the
+\* write succeeded; then Read waits for data and returns on EOF / a closed transport
+DP_ReadMsg ==
+  /\ post.rd = "run" /\ post.msg \in PostMsgs /\ post.out = "free"
+  /\ post' = [post EXCEPT !.msg = "consumed"]          \* lock taken and released within the step
+  /\ DPUnchanged
+DP_ReadEnd ==
+  /\ post.rd = "run" /\ post.msg = "consumed" /\ (post.down \/ post.ts = "eof")
+  /\ post' = [post EXCEPT !.rd = "ret"]
+  /\ DPUnchanged
+DP_Start ==
+  /\ post.msg = "consumed"
+  /\ \/ post.wr = "idle" /\ post' = [post EXCEPT !.wr = "run"]
+     \/ post.wr # "idle" /\ post.cw = "idle" /\ post' = [post EXCEPT !.cw = "run"]
+     \/ post.cw # "idle" /\ post.cl = "idle" /\ post.down /\ post' = [post EXCEPT !.cl = "run"]
+  /\ DPUnchanged
+DP_Finish ==      \* Write / CloseWrite / Close need c.out; on a dead transport they fail, but they return
+  /\ post.out = "free"
+  /\ \/ post.wr = "run" /\ post' = [post EXCEPT !.wr = "ret"]
+     \/ post.cw = "run" /\ post' = [post EXCEPT !.cw = "ret"]
+     \/ post.cl = "run" /\ post' = [post EXCEPT !.cl = "ret"]
+  /\ DPUnchanged
+DP_Down == /\ post.msg = "consumed" /\ ~post.down /\ post.cw # "idle" /\ post' = [post EXCEPT !.down = TRUE] /\ DPUnchanged
+DP_Calls == DP_ReadMsg \/ DP_ReadEnd \/ DP_Start \/ DP_Finish
+DataPhase == DP_Inject \/ DP_Calls \/ DP_Down
+\* the out mutex is never left held between steps, and a closed transport releases every call
+DataPhaseLockFree == post.out = "free"
+DataPhaseReturns == post.down ~> (post.rd # "run" /\ post.wr # "run" /\ post.cw # "run" /\ post.cl # "run")
 
 -----------------------------------------------------------------------------
 (* adversary (owns the network; knows no long-term, ticket or ephemeral secret) *)
@@ -523,10 +572,11 @@ Endpoints == C_SendCH \/ C_RecvServerFlight \/ C_RecvServerFinished \/ C_RecvTic
              \/ S_RecvClientHello \/ S_RecvClientFlight12 \/ S_RecvClientFinished12 \/ S_RecvClientFlight13
              \/ C_SeesClose \/ S_SeesClose \/ C_SeesAlert \/ S_SeesAlert
 
-Next == ((Endpoints \/ Adversary \/ EnvClose \/ Rotate \/ DropOld) /\ UNCHANGED <<verify, now, auto>>) \/ NextConnection \/ Tick
+Next == ((Endpoints \/ Adversary \/ EnvClose \/ Rotate \/ DropOld) /\ UNCHANGED <<verify, now, auto, post>>)
+        \/ NextConnection \/ Tick \/ DataPhase
 
 Spec == Init /\ [][Next]_vars
-FairSpec == Spec /\ WF_vars(Endpoints /\ UNCHANGED <<verify, now, auto>>)
+FairSpec == Spec /\ WF_vars(Endpoints /\ UNCHANGED <<verify, now, auto, post>>) /\ WF_vars(DP_Calls)
 
 -----------------------------------------------------------------------------
 (* properties *)
@@ -622,14 +672,15 @@ Witness(k) ==
     [] k = 32 -> auto /\ decision = "resume" /\ conn = 3
     [] k = 26 -> closed /\ Terminal
     [] k = 27 -> cst = "failed" /\ sst = "failed" /\ adv < AdvBudget
+    [] k = 33 -> post.msg = "consumed" /\ post.ts = "wfail" /\ post.wr = "ret" /\ post.cl = "ret"   \* data phase, failing write side
     [] k = 28 -> conn = 2 /\ verify /\ ~IsNull(cache) /\ ~cache.verified /\ Len(trC) >= 1 /\ IsNull(trC[1].ticket)  \* unverified session refused
     [] k = 29 -> BothDone /\ conn = 2 /\ verify /\ sessC.resumed                                              \* verified session resumed
     [] k = 30 -> BothDone /\ sessC.vers = 13 /\ au.ccert /\ cfgS.auth >= 1                                      \* 1.3 with client certificate
 Wanted == CASE Mode = "C24" -> (11..16) \cup {30}
             [] Mode = "C27" -> {11, 12} \cup (17..21) \cup {28, 29}
             [] Mode = "C31" -> {13, 14} \cup (22..25) \cup {31, 32}
-            [] Mode = "C32" -> {11, 12, 26, 27}
-ProbeInit == Init /\ \A k \in 11..32 : TLCSet(k, FALSE)
+            [] Mode = "C32" -> {11, 12, 26, 27, 33}
+ProbeInit == Init /\ \A k \in 11..33 : TLCSet(k, FALSE)
 ProbeSpec == ProbeInit /\ [][Next]_vars
 Probe == \A k \in Wanted : Witness(k) => TLCSet(k, TRUE)
 Reached == LET missing == {k \in Wanted : ~TLCGet(k)} IN
